@@ -67,6 +67,7 @@ def make_run_values(W, shape):
     from typing import Callable
 
     from ovld import Ovld
+    from ovld.dependent import EndsWith, StartsWith
 
     def factory(t):
         def g(x: t) -> t:         # one def statement, several function objects with different annotations
@@ -75,7 +76,8 @@ def make_run_values(W, shape):
 
     # (value, the method its documented meaning selects -- what a first call in a fresh process answers)
     VALUES = [("g[int]", factory(int), 0), ("g[str]", factory(str), 1), ("g[float]", factory(float), 4),
-              ("[1]", [1], 2), ("['a']", ["a"], 4), ("(1, 'a')", (1, "a"), 3), ("('a', 1)", ("a", 1), 4)]
+              ("[1]", [1], 2), ("['a']", ["a"], 4), ("(1, 'a')", (1, "a"), 3), ("('a', 1)", ("a", 1), 4),
+              ("'az'", "az", 5), ("'bq'", "bq", 4), ("'cz'", "cz", 4), ("'bz'", "bz", 5)]
     perms = list(it.permutations(range(len(VALUES)), 3))
 
     def mk():
@@ -100,8 +102,12 @@ def make_run_values(W, shape):
         def m4(x: object):
             LOG.append((4,))
             return 4
+
+        def m5(s: (StartsWith["a"] | StartsWith["b"]) & EndsWith["z"]):      # value-dependent leaves inside nested combinators
+            LOG.append((5,))
+            return 5
         ov = Ovld()
-        for fn, p in ((m0, 0), (m1, 0), (m2, 0), (m3, 0), (m4, -1)):
+        for fn, p in ((m0, 0), (m1, 0), (m2, 0), (m3, 0), (m4, -1), (m5, 0)):
             ov.register(fn, priority=p)
         return ov, LOG
 
